@@ -58,8 +58,11 @@ let run_val (id : string) (fields : t list) : string =
            let vs = List.map (fun i ->
              match M.validate0 (re_match rx) (hashfun seed) fuel_big env i with
              | M.Ok _ -> "V" | M.Err -> "I" | M.Panic -> "P" | M.OutOfFuel -> "F") insts in
-           Printf.sprintf "%s unm=ok res=ok calls=%s v=%s%s" id
-             (String.concat "," (List.map ints_of_str calls)) (String.concat "" vs)
+           let sp = List.map (fun i ->
+             match M.spec_valid (re_match rx) fuel_big env (M.den i) with
+             | Some true -> "V" | Some false -> "I" | None -> "F") insts in
+           Printf.sprintf "%s unm=ok res=ok calls=%s v=%s spec=%s%s" id
+             (String.concat "," (List.map ints_of_str calls)) (String.concat "" vs) (String.concat "" sp)
              (if rx.miss > 0 then Printf.sprintf " rxmiss=%d" rx.miss else "")
        | r -> Printf.sprintf "%s unm=ok res=%s" id (res_tag r))
   | r -> Printf.sprintf "%s unm=%s" id (res_tag r)
